@@ -1156,7 +1156,13 @@ pub unsafe extern "C" fn waitid(idtype: libc::idtype_t, id: libc::id_t, info: *m
                 for c in &cands {
                     let p = s.k.proc(*c);
                     if let (true, PState::Zombie { status }) = (options & libc::WEXITED != 0, p.state.clone()) {
-                        let (code, st) = if status & 0x7f == 0 { (libc::CLD_EXITED, (status >> 8) & 0xff) } else { (libc::CLD_KILLED, status & 0x7f) };
+                        let (code, st) = if status & 0x7f == 0 {
+                            (libc::CLD_EXITED, (status >> 8) & 0xff)
+                        } else if status & 0x80 != 0 {
+                            (libc::CLD_DUMPED, status & 0x7f)
+                        } else {
+                            (libc::CLD_KILLED, status & 0x7f)
+                        };
                         found = Some((*c, code, st));
                         break;
                     }
@@ -1182,7 +1188,7 @@ pub unsafe extern "C" fn waitid(idtype: libc::idtype_t, id: libc::id_t, info: *m
                     }
                     if options & libc::WNOWAIT == 0 {
                         match code {
-                            x if x == libc::CLD_EXITED || x == libc::CLD_KILLED => s.k.reap(c, Ent::Par(t)),
+                            x if x == libc::CLD_EXITED || x == libc::CLD_KILLED || x == libc::CLD_DUMPED => s.k.reap(c, Ent::Par(t)),
                             x if x == libc::CLD_STOPPED => s.k.proc_mut(c).stop_unreported = 0,
                             _ => s.k.proc_mut(c).cont_unreported = false,
                         }
